@@ -18,6 +18,7 @@ import (
 	"sort"
 	"strconv"
 	"strings"
+	"time"
 
 	"github.com/lugu/qiloop/meta/idl"
 	"github.com/lugu/qiloop/meta/signature"
@@ -38,7 +39,18 @@ type genResult struct {
 
 // generate runs the repository's IDL parser and stub+proxy generator
 // (stub.GeneratePackage, what `go run meta/cmd/stub` calls).
-func generate(idlText string) (r genResult) {
+func generate(idlText string) genResult {
+	ch := make(chan genResult, 1)
+	go func() { ch <- generate1(idlText) }()
+	select {
+	case r := <-ch:
+		return r
+	case <-time.After(60 * time.Second):
+		return genResult{failure: "generate-hang", msg: "the generator did not return within 60 s"}
+	}
+}
+
+func generate1(idlText string) (r genResult) {
 	defer func() {
 		if p := recover(); p != nil {
 			r.failure, r.msg = "generate-panic", fmt.Sprint(p)
